@@ -162,6 +162,53 @@ func collBody(name string, ops []string, backpressure, lateConsumer bool) func()
 	}
 }
 
+// twoWritersBody: an Update and a Delete of the same item by two writers, a subscriber that keeps up: whichever
+// order the two commit in (and however often the loser has to look again), the events chain - each carries as its
+// old value what the previous one delivered - and fold to the store.
+func twoWritersBody(name string, backpressure bool) func() {
+	return func() {
+		col := resource.NewCollection(resource.WithInitialRecord("a", msg(0)))
+		ctx, cancel := context.WithCancel(context.Background())
+		defer cancel()
+		ch := col.Pull(ctx, resource.WithBackpressure(backpressure), resource.WithUpdatesOnly(true))
+		var received []ev
+		go func() {
+			for c := range ch {
+				received = append(received, ev{c.ChangeType, c.Id, show(c.OldValue), show(c.NewValue)})
+			}
+		}()
+		var wg sync.WaitGroup
+		wg.Add(2)
+		var deleted string
+		go func() {
+			defer wg.Done()
+			col.Update("a", msg(1)) // NotFound when the delete came first
+		}()
+		go func() {
+			defer wg.Done()
+			m, err := col.Delete("a")
+			if err != nil {
+				verifrt.Logf("FAIL write-error %s ## Delete: %v", name, err)
+			}
+			deleted = show(m)
+		}()
+		wg.Wait()
+		verifrt.WaitIdle()
+		final := map[string]string{}
+		if m, ok := col.Get("a"); ok {
+			final["a"] = show(m)
+		}
+		checkStream(name, map[string]string{"a": "0"}, received, final)
+		// what Delete hands back is the item as it was removed: the old value of the REMOVE event
+		for _, e := range received {
+			if e.kind == types.ChangeType_REMOVE && backpressure && e.old != deleted {
+				verifrt.Logf("FAIL delete-result %s ## Delete returned %s, its event says %s was removed; received %v", name, deleted, e.old, received)
+			}
+		}
+		verifrt.Logf("OUT received=%v", received)
+	}
+}
+
 // ---- harness B: Value
 func valueBody(name string, n int, backpressure, lateConsumer bool) func() {
 	return func() {
@@ -539,6 +586,10 @@ func eventSeqs(n int, legalOnly bool) [][]ev {
 
 func main() {
 	h := hx.New("C09")
+	for _, bp := range []bool{false, true} {
+		name := fmt.Sprintf("coll/update a || delete a/backpressure=%v", bp)
+		h.Sched(name, -1, -1, twoWritersBody(name, bp), hx.StdOracle)
+	}
 	for n := 1; n <= 5; n++ {
 		q := -1
 		if n > 3 {
